@@ -48,10 +48,7 @@ theorem step_cases (s : S) (op : Op) :
     · cases hp : posOf s.items h with
       | none => left; simp [step, hp, hh]
       | some p => simp only [step, hp, hh, if_false]; exact base _
-  | search k =>
-    cases hg : guarded k with
-    | true => simp only [step, hg, if_true]; exact base _
-    | false => left; simp [step, hg]
+  | search k => exact base _
   | listInsObj after emptyRx row txt =>
     cases emptyRx with
     | true => left; simp [step]
@@ -127,10 +124,7 @@ theorem step_stale_keeps (s : S) (op : Op) (ha : s.auto = false) (hs : s.stale =
     · cases hp : posOf s.items h with
       | none => simp [step, hp, hh, hs]
       | some p => simp only [step, hp, hh, if_false]; exact base _ (by simp)
-  | search k =>
-    cases hg : guarded k with
-    | true => simp only [step, hg, if_true]; exact base _ (by simp)
-    | false => simp [step, hg, hs]
+  | search k => exact base _ (by simp)
   | listInsObj after emptyRx row txt =>
     cases emptyRx with
     | true => simp [step, hs]
